@@ -163,15 +163,25 @@ var shapeCounter int
 // config.Integration.AddRequiredFields, then dig.New with its event, block
 // fields, table and notification.
 func newIntegration(d *abi.Decl, shape []string) (dig.Integration, string, error) {
-	c := config.Integration{Name: "ig", Enabled: true, Event: d.Event, Table: wpg.Table{Name: "t"}}
+	// the production path: config (event parsed from the declared JSON) ->
+	// config.ValidateFix (AddRequiredFields, unique index, reference checks) -> dig.New
+	ev, err := abi.ParseEvent(d.JSON)
+	if err != nil {
+		return dig.Integration{}, "", err
+	}
+	c := config.Integration{Name: "ig", Enabled: true, Event: ev, Table: wpg.Table{Name: "t"}}
 	for _, f := range shape {
 		c.Block = append(c.Block, dig.BlockData{Name: f, Column: f})
 		c.Table.Columns = append(c.Table.Columns, wpg.Column{Name: f, Type: "bytea"})
 	}
-	for _, in := range d.Event.Selected() {
+	for _, in := range ev.Selected() {
 		c.Table.Columns = append(c.Table.Columns, wpg.Column{Name: in.Column, Type: "bytea"})
 	}
-	c.AddRequiredFields()
+	root := config.Root{Integrations: []config.Integration{c}}
+	if err := config.ValidateFix(&root); err != nil {
+		return dig.Integration{}, "", fmt.Errorf("config.ValidateFix: %w", err)
+	}
+	c = root.Integrations[0]
 	ig, err := dig.New(c.Name, c.Event, c.Block, c.Table, c.Notification, c.FilterAGG)
 	if err != nil {
 		return ig, "", err
@@ -382,6 +392,96 @@ func gateCase(out *lib.Out, g *abi.Gen, d *abi.Decl, kind string, pre *prebuilt)
 	return nil
 }
 
+// fixedSameTopLevel: declarations built in ONE process, in both orders, that
+// agree on the event name and on the top-level type strings (tuple, tuple[],
+// tuple[2]) but differ in their components (types, order, nesting depth), plus
+// same-signature-different-name controls.  Signature(), SignatureHash(), the
+// topic Filter() sends and the gate decision must be those of THAT declaration.
+func fixedSameTopLevel(out *lib.Out, r *lib.RNG) error {
+	e := func(kind string, bits int, sel bool) *abi.Ty { return &abi.Ty{EKind: kind, Bits: bits, Sel: sel} }
+	tup := func(dims []int, cs ...*abi.Ty) *abi.Ty { return &abi.Ty{EKind: "tuple", Comps: cs, Dims: dims} }
+	groups := [][][]*abi.Ty{
+		{{tup(nil, e("uint", 256, true), e("address", 0, false))},
+			{tup(nil, e("address", 0, false), e("uint", 256, true))},
+			{tup(nil, e("uint", 256, true), tup(nil, e("bool", 0, false), e("bytesN", 32, false)))}},
+		{{tup([]int{0}, e("uint", 256, true), e("string", 0, false))},
+			{tup([]int{0}, e("string", 0, false), e("uint", 256, true))},
+			{tup([]int{0}, e("uint", 128, true), e("string", 0, false))}},
+		{{tup([]int{2}, e("uint", 8, true), e("uint", 8, false))},
+			{tup([]int{2}, e("uint", 8, true), e("uint", 16, false))},
+			{tup([]int{2}, tup(nil, e("uint", 8, true), tup(nil, e("uint", 8, false))), e("uint", 8, false))}},
+		{{e("uint", 256, false), tup(nil, e("bytes", 0, true)), tup([]int{0}, e("address", 0, false))},
+			{e("uint", 256, false), tup(nil, e("string", 0, true)), tup([]int{0}, e("address", 0, false), e("bool", 0, false))}},
+	}
+	name := func(ins []*abi.Ty) {
+		n, c := 0, 0
+		var w func(t *abi.Ty)
+		w = func(t *abi.Ty) {
+			t.Name = fmt.Sprintf("a%d", n)
+			n++
+			if t.Sel {
+				t.Col = fmt.Sprintf("c%d", c)
+				c++
+			}
+			for _, x := range t.Comps {
+				w(x)
+			}
+		}
+		for _, t := range ins {
+			w(t)
+		}
+	}
+	run := func(evName string, ins []*abi.Ty) error {
+		name(ins)
+		d, err := abi.NewDecl(evName, ins)
+		if err != nil {
+			return err
+		}
+		sigCase(out, d, "signature-same-top-level-types", "")
+		if d.Panic != "" {
+			return nil
+		}
+		return gateCase(out, &abi.Gen{R: r.Fork(), MaxDepth: 2}, d, "gate-same-top-level-types", nil)
+	}
+	for gi, grp := range groups {
+		for i := range grp { // construction order
+			if err := run(fmt.Sprintf("P%d", gi), grp[i]); err != nil {
+				return err
+			}
+		}
+		for i := len(grp) - 1; i >= 0; i-- { // reverse order, another name
+			if err := run(fmt.Sprintf("Q%d", gi), grp[i]); err != nil {
+				return err
+			}
+		}
+	}
+	// an UNNAMED input in front of / between / behind named ones: the integration
+	// built from the validated config must still be the DECLARED event
+	for pos := 0; pos < 3; pos++ {
+		ins := []*abi.Ty{e("address", 0, false), e("uint", 256, true)}
+		ins[0].Indexed = true
+		un := e("uint", 256, false)
+		ins = append(ins[:pos], append([]*abi.Ty{un}, ins[pos:]...)...)
+		name(ins)
+		un.Name = ""
+		d, err := abi.NewDecl("Deposit", ins)
+		if err != nil {
+			return err
+		}
+		sigCase(out, d, "signature-unnamed-input", "")
+		if err := gateCase(out, &abi.Gen{R: r.Fork(), MaxDepth: 2}, d, "gate-unnamed-input", nil); err != nil {
+			return err
+		}
+	}
+	// controls: the same signature under different names, and the same name again
+	for _, nm := range []string{"CtlA", "CtlB", "CtlA"} {
+		if err := run(nm, []*abi.Ty{e("uint", 256, true), tup(nil, e("address", 0, false))}); err != nil {
+			return err
+		}
+	}
+	return nil
+}
+
 func runC13(cfg lib.Cfg) error {
 	per := 24
 	if cfg.Thorough() {
@@ -396,6 +496,9 @@ func runC13(cfg lib.Cfg) error {
 	nSig, nGate, nMulti, nHash := 300, 30, 5, 30
 	if cfg.Thorough() {
 		nSig, nGate, nMulti, nHash, gateMaxData = 8000, 400, 40, 2000, 1500
+	}
+	if err := fixedSameTopLevel(out, r.Fork()); err != nil {
+		return err
 	}
 	for _, k := range knownEvents() {
 		d, err := abi.NewDecl(k.name, k.ins)
